@@ -5,6 +5,7 @@ from xml.etree import ElementTree
 
 from typing_extensions import final, override
 
+from ..dataobjectproperty import DataObjectProperty
 from ..decodestate import DecodeState
 from ..encodestate import EncodeState
 from ..exceptions import EncodeError, odxraise, odxrequire
@@ -117,6 +118,20 @@ class LengthKeyParameter(ParameterWithDOP):
             return
         else:
             physical_value = encode_state.length_keys[self.short_name]
+
+        # the object which references the length key has been encoded
+        # using exactly this bit length. Make sure that the length
+        # key is able to represent it, i.e., that it is not altered
+        # (e.g., rounded) by the compu method of the key's DOP: else
+        # the object would be decoded using a different length.
+        if isinstance(self.dop, DataObjectProperty) and \
+           self.dop.compu_method.is_valid_physical_value(physical_value):
+            compu_method = self.dop.compu_method
+            internal_value = compu_method.convert_physical_to_internal(physical_value)
+            if compu_method.convert_internal_to_physical(internal_value) != physical_value:
+                odxraise(
+                    f"Length key {self.short_name} cannot represent "
+                    f"a length of {physical_value} bits", EncodeError)
 
         encode_state.cursor_byte_position = encode_state.key_pos[self.short_name]
         encode_state.cursor_bit_position = self.bit_position or 0
